@@ -20,4 +20,15 @@ theorem blockPartSize_value : Facts.blockPartSizeBytes = 65536 := by decide
 theorem hasHeader_compares_headers : Facts.c10_hasheader_equals = true := by decide
 theorem header_equals_total_and_hash : Facts.c10_header_equals_total_and_hash = true := by decide
 
+/-- the guards of `State.addProposalBlockPart` and `BlockPartMessage.ValidateBasic` as `consAddPart`
+has them (`cons_block_is_committed`, `cons_ignores_invalid`) -/
+theorem cons_height_guard : Facts.c10_cons_height_guard = "cs.Height != height" := by decide
+theorem cons_maxbytes_guard : Facts.c10_cons_maxbytes_guard =
+    "cs.ProposalBlockParts.ByteSize() > cs.state.ConsensusParams.Block.MaxBytes" := by decide
+theorem cons_decode_guard : Facts.c10_cons_decode_guard =
+    "added && cs.ProposalBlockParts.IsComplete()" := by decide
+theorem blockpartmsg_round_guard : Facts.c10_blockpartmsg_round_guard = "m.Round < 0" := by decide
+/-- `enterCommit` replaces the part set it holds unless `HasHeader(committed header)` -/
+theorem entercommit_hasheader : Facts.c10_entercommit_hasheader = true := by decide
+
 end Tmv.Expect.C10
